@@ -293,6 +293,10 @@ pub fn run(ctx: &Ctx) -> (Spec, Report) {
             if matches!(lang, LangId::Swift | LangId::Kotlin) && rng.chance(1, 3) {
                 cfg.prefix = "Pf".into();
             }
+            // Kotlin without a configured package: no package line, imports name the module alone
+            if lang == LangId::Kotlin && rng.chance(1, 4) {
+                cfg.package = String::new();
+            }
             let mut env_cfg_args: Vec<String> = vec![];
             if rng.chance(1, 4) {
                 // a type mapping for a foreign type must not produce imports; written to a config file
@@ -472,8 +476,18 @@ pub fn run(ctx: &Ctx) -> (Spec, Report) {
                 }
             }
         }
-        // imports (TypeScript, Kotlin)
-        if matches!(r.lang, LangId::Ts | LangId::Kotlin) {
+        // imports (TypeScript, Kotlin). Kotlin without a configured package writes no `package` lines: all files share the
+        // default package, where nothing can or has to be imported - any import line there is a defect of its own
+        if r.lang == LangId::Kotlin && r.cfg.package.is_empty() {
+            for (fname, f) in multi_facts.iter() {
+                if let ParseStatus::Parsed(file) = &f.status {
+                    rep.count("kotlin_default_package_files_checked", 1);
+                    if file.imports.iter().any(|(m, _)| !(m.starts_with("kotlinx.") || m == "kotlinx")) {
+                        rep.violate(format!("C14|kotlin|import-in-default-package"), format!("{fname}: import lines although no package is configured"), detail(json!({"file": fname})));
+                    }
+                }
+            }
+        } else if matches!(r.lang, LangId::Ts | LangId::Kotlin) {
             for (c, cname) in r.ws.crates.iter().enumerate() {
                 let fname = expected_file_name(r.lang, cname);
                 let Some(ParseStatus::Parsed(file)) = multi_facts.get(fname.as_str()).map(|f| &f.status) else { continue };
